@@ -26,7 +26,8 @@ PY
 fi
 cd /repo
 if git rev-parse -q --verify agent-$A >/dev/null; then
-  for c in $(git rev-list --reverse main..agent-$A); do
+  # only commits whose patch is not already in main (so an agent branch can be integrated repeatedly)
+  for c in $(git cherry main agent-$A | grep '^+' | cut -d' ' -f2); do
     echo "cherry-pick $(git log --format=%s -1 $c)"
     git cherry-pick -x $c >/dev/null || { echo "CHERRY-PICK CONFLICT at $c"; exit 1; }
   done
